@@ -339,7 +339,12 @@ def guard_says_not_lazy(test, param, pos):
                   f"isinstance({p},(int,str))"]
     if txt in pats_true:
         return True
-    if txt in (f"isinstance({p},LazyList)", f"type({p})isLazyList"):
+    if txt in (f"isinstance({p},LazyList)", f"type({p})isLazyList",
+               f"vy_type({p})isLazyList", f"vy_type({p})==LazyList",
+               f"type({p})==LazyList"):
+        return False
+    if pos is not None and txt in (f"ts[{pos}]isLazyList",
+                                   f"ts[{pos}]==LazyList"):
         return False
     if txt in (f"vy_type({p})!=NUMBER_TYPE", f"vy_type({p})isnotNUMBER_TYPE"):
         return False
